@@ -101,7 +101,10 @@ def ctx_errors(concepts):
             _exc(lambda: C.fromdict({'objects': ['a'], 'properties': ['x', 'y'], 'context': [[0, 0]]})),
             _exc(lambda: C.fromdict({'properties': ['x', 'y']})),
             _exc(lambda: C.fromdict({'objects': ['a', 1], 'properties': ['x', 'y'], 'context': [[0], [1]]})),
-            _exc(lambda: concepts.Definition(['a', 'a', 'b', 'b'], ['x'], [(True,)] * 4))]
+            _exc(lambda: concepts.Definition(['a', 'a', 'b', 'b'], ['x'], [(True,)] * 4)),
+            _exc(lambda: C(['x'], ['d', 'c', 'd', 'b', 'c', 'b'], [(True,) * 6])),
+            _exc(lambda: C.fromdict({'objects': ['b', 'a', 'b', 'a', 'c', 'c'], 'properties': ['x'], 'context': [[0]] * 6})),
+            _exc(lambda: concepts.Definition(['a'], ['q', 'p', 'q', 'p', 'r', 'r'], [(True,) * 6]))]
 
 
 def fromdict_raw(concepts):
@@ -144,6 +147,10 @@ ITEMS = {
     'remove_empty_objects': lambda concepts: (lambda d: [d.remove_empty_objects(), d.remove_empty_properties()] + _snap(d))(
         concepts.Definition(['c', 'b', 'a', 'd'], ['z', 'y', 'x', 'w'],
                             [(0, 0, 0, 0), (0, 1, 0, 0), (0, 0, 0, 0), (0, 0, 0, 0)])),
+    'remove_empty_many': lambda concepts: (lambda d: [d.remove_empty_objects(), d.remove_empty_properties()] + _snap(d))(
+        concepts.Definition(['f', 'e', 'd', 'c', 'b', 'a'], ['u', 'z', 'y', 'x', 'w', 'v'],
+                            [(0, 0, 0, 0, 0, 0), (0, 1, 0, 0, 1, 0), (0, 0, 0, 0, 0, 0), (0, 0, 0, 1, 0, 0),
+                             (0, 0, 0, 0, 0, 0), (0, 1, 0, 0, 0, 1)])),
     'move': _edit('move_object', 'xe', 0),
     'union': _derive('union', other=True, ignore_conflicts=True),
     'union_conflict': _derive('union', other=True),
